@@ -120,3 +120,275 @@ Proof. intros W Hk. apply glue_add_days_ord; [apply date_ord_range; exact W|exac
 
 Lemma glue_sub_days p k : wf_date p -> -999999999 <= k <= 999999999 -> glue_Date_subtract (gd_of p) 0 0 0 k = gres (date_add_days p (- k)).
 Proof. intros W Hk. rewrite glue_date_subtract_is_add. change (- 0) with 0. apply glue_add_days; [exact W|lia]. Qed.
+
+(* ------------------------------------------------------------------ Date.replace / Date.set *)
+Definition dflt (o : option Z) (x : Z) : Z := match o with None => x | Some w => w end.
+
+Lemma wglue_Date_replace_eq p oy om od : wf_date p ->
+  wglue_Date_replace (gd_of p) oy om od = gres (date_new (dflt oy (d_year p)) (dflt om (d_month p)) (dflt od (d_day p))).
+Proof.
+  intros W. destruct (gd_of_fields p W) as (A & B & C). unfold wglue_Date_replace. rewrite A, B, C. cbv zeta. rewrite res_id'.
+  rewrite nat_date_new_sim. destruct oy, om, od; reflexivity.
+Qed.
+
+Lemma wglue_Date_set_eq p oy om od : wf_date p ->
+  wglue_Date_set (gd_of p) oy om od = gres (date_new (dflt oy (d_year p)) (dflt om (d_month p)) (dflt od (d_day p))).
+Proof. intros W. unfold wglue_Date_set. rewrite res_id'. apply wglue_Date_replace_eq. exact W. Qed.
+
+Lemma sim_bind (G : result gdate) (R : result pdate) (K : gdate -> result gdate) (F : pdate -> result pdate) :
+  G = gres R -> (forall q, R = Ok q -> K (gd_of q) = gres (F q)) ->
+  match G with Raise e => Raise e | Ok m => K m end = gres (bind R F).
+Proof. intros -> H. destruct R as [q|e]; cbn [gres bind]; [apply H; reflexivity|reflexivity]. Qed.
+
+(* ------------------------------------------------------------------ Date.next / Date.previous *)
+Lemma next_loop_eq w : forall fuel q, wf_date q -> wglue_Date_next_loop fuel w (gd_of q) = gres (d_next_loop fuel w q).
+Proof.
+  induction fuel as [|f IH]; intros q W; [reflexivity|]. cbn [wglue_Date_next_loop d_next_loop].
+  unfold wglue_Date_next_cond. rewrite gd_of_dow. destruct (negb (dow q =? w)); [|reflexivity].
+  unfold wglue_Date_next_step. rewrite res_id'. apply sim_bind; [apply glue_add_days; [exact W|lia]|].
+  intros q' Hq. apply IH. exact (date_add_days_wf _ _ _ Hq).
+Qed.
+
+Theorem wglue_Date_next_eq p wd : wf_date p -> wglue_Date_next (gd_of p) wd = gres (d_next p wd).
+Proof.
+  intros W. unfold wglue_Date_next, wglue_Date_next_init, d_next. rewrite gd_of_dow. cbv zeta.
+  set (w := match wd with None => dow p | Some w_ => w_ end).
+  replace (match wd with None => dow p | Some w0 => w0 end) with w by reflexivity.
+  unfold wd_invalid. destruct ((w <? 0) || (w >? 6)); [reflexivity|].
+  rewrite (glue_add_days p 1 W) by lia. destruct (date_add_days p 1) as [q|e] eqn:E; cbn [gres bind]; [|reflexivity].
+  apply next_loop_eq. exact (date_add_days_wf _ _ _ E).
+Qed.
+
+Lemma prev_loop_eq w : forall fuel q, wf_date q -> wglue_Date_previous_loop fuel w (gd_of q) = gres (d_prev_loop fuel w q).
+Proof.
+  induction fuel as [|f IH]; intros q W; [reflexivity|]. cbn [wglue_Date_previous_loop d_prev_loop].
+  unfold wglue_Date_previous_cond. rewrite gd_of_dow. destruct (negb (dow q =? w)); [|reflexivity].
+  unfold wglue_Date_previous_step. rewrite res_id'. apply sim_bind; [apply (glue_sub_days q 1); [exact W|lia]|].
+  intros q' Hq. apply IH. exact (date_add_days_wf _ _ _ Hq).
+Qed.
+
+Theorem wglue_Date_previous_eq p wd : wf_date p -> wglue_Date_previous (gd_of p) wd = gres (d_previous p wd).
+Proof.
+  intros W. unfold wglue_Date_previous, wglue_Date_previous_init, d_previous. rewrite gd_of_dow. cbv zeta.
+  set (w := match wd with None => dow p | Some w_ => w_ end).
+  replace (match wd with None => dow p | Some w0 => w0 end) with w by reflexivity.
+  unfold wd_invalid. destruct ((w <? 0) || (w >? 6)); [reflexivity|].
+  rewrite (glue_sub_days p 1 W) by lia. change (- (1)) with (-1). destruct (date_add_days p (-1)) as [q|e] eqn:E; cbn [gres bind]; [|reflexivity].
+  apply prev_loop_eq. exact (date_add_days_wf _ _ _ E).
+Qed.
+
+Lemma d_next_loop_wf w : forall fuel q r, wf_date q -> d_next_loop fuel w q = Ok r -> wf_date r.
+Proof.
+  induction fuel as [|f IH]; intros q r W; [discriminate|]. cbn [d_next_loop]. destruct (negb (dow q =? w)).
+  - destruct (date_add_days q 1) as [q'|e] eqn:E; cbn [bind]; [|discriminate]. apply IH. exact (date_add_days_wf _ _ _ E).
+  - intros H. injection H as <-. exact W.
+Qed.
+Lemma d_next_wf p wd r : wf_date p -> d_next p wd = Ok r -> wf_date r.
+Proof.
+  intros W. unfold d_next. cbv zeta. destruct (wd_invalid _); [discriminate|].
+  destruct (date_add_days p 1) as [q'|e] eqn:E; cbn [bind]; [|discriminate]. apply d_next_loop_wf. exact (date_add_days_wf _ _ _ E).
+Qed.
+Lemma d_prev_loop_wf w : forall fuel q r, wf_date q -> d_prev_loop fuel w q = Ok r -> wf_date r.
+Proof.
+  induction fuel as [|f IH]; intros q r W; [discriminate|]. cbn [d_prev_loop]. destruct (negb (dow q =? w)).
+  - destruct (date_add_days q (-1)) as [q'|e] eqn:E; cbn [bind]; [|discriminate]. apply IH. exact (date_add_days_wf _ _ _ E).
+  - intros H. injection H as <-. exact W.
+Qed.
+Lemma d_previous_wf p wd r : wf_date p -> d_previous p wd = Ok r -> wf_date r.
+Proof.
+  intros W. unfold d_previous. cbv zeta. destruct (wd_invalid _); [discriminate|].
+  destruct (date_add_days p (-1)) as [q'|e] eqn:E; cbn [bind]; [|discriminate]. apply d_prev_loop_wf. exact (date_add_days_wf _ _ _ E).
+Qed.
+
+(* ------------------------------------------------------------------ _first_of_month .. _last_of_year *)
+Lemma set_day_eq p d : wf_date p -> wglue_Date_set (gd_of p) None None (Some d) = gres (date_set_day p d).
+Proof. intros W. rewrite wglue_Date_set_eq by exact W. reflexivity. Qed.
+Lemma set_month_eq p m : wf_date p -> wglue_Date_set (gd_of p) None (Some m) None = gres (date_set_month p m).
+Proof. intros W. rewrite wglue_Date_set_eq by exact W. reflexivity. Qed.
+Lemma set_ymd_eq p y m d : wf_date p -> wglue_Date_set (gd_of p) (Some y) (Some m) (Some d) = gres (date_set_ymd p y m d).
+Proof. intros W. rewrite wglue_Date_set_eq by exact W. reflexivity. Qed.
+Lemma replace_ymd_eq p y m d : wf_date p -> wglue_Date_replace (gd_of p) (Some y) (Some m) (Some d) = gres (date_set_ymd p y m d).
+Proof. intros W. rewrite wglue_Date_replace_eq by exact W. reflexivity. Qed.
+
+Theorem wglue_Date_first_of_month_eq p wd : wf_date p -> wglue_Date_first_of_month (gd_of p) wd = gres (d_first_of_month p wd).
+Proof.
+  intros W. destruct (gd_of_fields p W) as (A & B & C). unfold wglue_Date_first_of_month, d_first_of_month. cbv zeta. rewrite A, B.
+  destruct wd as [w|]; [|rewrite res_id'; apply set_day_eq; exact W].
+  destruct (mc_get (d_year p) (d_month p) 0 w) as [c0|e]; cbn [bind]; cbv beta iota zeta; [|reflexivity].
+  destruct (c0 >? 0); [rewrite res_id'; apply set_day_eq; exact W|].
+  destruct (mc_get (d_year p) (d_month p) 1 w) as [c1|e]; cbn [bind]; cbv beta iota zeta; [|reflexivity]. rewrite res_id'. apply set_day_eq; exact W.
+Qed.
+
+Theorem wglue_Date_last_of_month_eq p wd : wf_date p -> wglue_Date_last_of_month (gd_of p) wd = gres (d_last_of_month p wd).
+Proof.
+  intros W. destruct (gd_of_fields p W) as (A & B & C). unfold wglue_Date_last_of_month, d_last_of_month. cbv zeta. rewrite A, B.
+  destruct wd as [w|]; [|rewrite res_id'; rewrite gd_of_dim by exact W; apply set_day_eq; exact W].
+  destruct (mc_get (d_year p) (d_month p) (-1) w) as [c0|e]; cbn [bind]; cbv beta iota zeta; [|reflexivity].
+  destruct (c0 >? 0); [rewrite res_id'; apply set_day_eq; exact W|].
+  destruct (mc_get (d_year p) (d_month p) (-2) w) as [c1|e]; cbn [bind]; cbv beta iota zeta; [|reflexivity]. rewrite res_id'. apply set_day_eq; exact W.
+Qed.
+
+Theorem wglue_Date_first_of_quarter_eq p wd : wf_date p -> wglue_Date_first_of_quarter (gd_of p) wd = gres (d_first_of_quarter p wd).
+Proof.
+  intros W. destruct (gd_of_fields p W) as (A & B & C). unfold wglue_Date_first_of_quarter, d_first_of_quarter. rewrite A, gd_of_quarter by exact W.
+  apply sim_bind; [apply set_ymd_eq; exact W|]. intros q Hq. rewrite res_id'. apply wglue_Date_first_of_month_eq. exact (date_new_wf _ _ _ _ Hq).
+Qed.
+Theorem wglue_Date_last_of_quarter_eq p wd : wf_date p -> wglue_Date_last_of_quarter (gd_of p) wd = gres (d_last_of_quarter p wd).
+Proof.
+  intros W. destruct (gd_of_fields p W) as (A & B & C). unfold wglue_Date_last_of_quarter, d_last_of_quarter. rewrite A, gd_of_quarter by exact W.
+  apply sim_bind; [apply set_ymd_eq; exact W|]. intros q Hq. rewrite res_id'. apply wglue_Date_last_of_month_eq. exact (date_new_wf _ _ _ _ Hq).
+Qed.
+Theorem wglue_Date_first_of_year_eq p wd : wf_date p -> wglue_Date_first_of_year (gd_of p) wd = gres (d_first_of_year p wd).
+Proof.
+  intros W. unfold wglue_Date_first_of_year, d_first_of_year.
+  apply sim_bind; [apply set_month_eq; exact W|]. intros q Hq. rewrite res_id'. apply wglue_Date_first_of_month_eq. exact (date_new_wf _ _ _ _ Hq).
+Qed.
+Theorem wglue_Date_last_of_year_eq p wd : wf_date p -> wglue_Date_last_of_year (gd_of p) wd = gres (d_last_of_year p wd).
+Proof.
+  intros W. unfold wglue_Date_last_of_year, d_last_of_year. change C_MONTHS_PER_YEAR with 12.
+  apply sim_bind; [apply set_month_eq; exact W|]. intros q Hq. rewrite res_id'. apply wglue_Date_last_of_month_eq. exact (date_new_wf _ _ _ _ Hq).
+Qed.
+
+(* first_of / last_of: `if unit not in ["month", "quarter", "year"]: raise ValueError; return getattr(self, f"_first_of_{unit}")(day_of_week)` —
+   the dispatch is written by hand over the translated helpers (the generator checks that the two bodies are exactly this text) *)
+Definition wglue_Date_first_of (u : Z) (self : gdate) (wd : option Z) : result gdate :=
+  if u =? U_MONTH then wglue_Date_first_of_month self wd
+  else if u =? U_QUARTER then wglue_Date_first_of_quarter self wd
+  else if u =? U_YEAR then wglue_Date_first_of_year self wd
+  else Raise E_ValueError.
+Definition wglue_Date_last_of (u : Z) (self : gdate) (wd : option Z) : result gdate :=
+  if u =? U_MONTH then wglue_Date_last_of_month self wd
+  else if u =? U_QUARTER then wglue_Date_last_of_quarter self wd
+  else if u =? U_YEAR then wglue_Date_last_of_year self wd
+  else Raise E_ValueError.
+
+Theorem wglue_Date_first_of_eq u p wd : wf_date p -> wglue_Date_first_of u (gd_of p) wd = gres (d_first_of u p wd).
+Proof.
+  intros W. unfold wglue_Date_first_of, d_first_of.
+  destruct (u =? U_MONTH); [apply wglue_Date_first_of_month_eq; exact W|].
+  destruct (u =? U_QUARTER); [apply wglue_Date_first_of_quarter_eq; exact W|].
+  destruct (u =? U_YEAR); [apply wglue_Date_first_of_year_eq; exact W|reflexivity].
+Qed.
+Theorem wglue_Date_last_of_eq u p wd : wf_date p -> wglue_Date_last_of u (gd_of p) wd = gres (d_last_of u p wd).
+Proof.
+  intros W. unfold wglue_Date_last_of, d_last_of.
+  destruct (u =? U_MONTH); [apply wglue_Date_last_of_month_eq; exact W|].
+  destruct (u =? U_QUARTER); [apply wglue_Date_last_of_quarter_eq; exact W|].
+  destruct (u =? U_YEAR); [apply wglue_Date_last_of_year_eq; exact W|reflexivity].
+Qed.
+
+Lemma gres_ok r g : gres r = Ok g -> exists q, r = Ok q /\ g = gd_of q.
+Proof. destruct r as [q|e]; cbn [gres]; [|discriminate]. intros H. injection H as <-. now exists q. Qed.
+
+Lemma d_first_of_month_wf p wd r : wf_date p -> d_first_of_month p wd = Ok r -> wf_date r.
+Proof.
+  intros W. unfold d_first_of_month, date_set_day. destruct wd as [w|]; [|apply date_new_wf]. cbv zeta.
+  destruct (mc_get _ _ 0 w) as [c0|e]; cbn [bind]; [|discriminate]. destruct (c0 >? 0); [apply date_new_wf|].
+  destruct (mc_get _ _ 1 w) as [c1|e]; cbn [bind]; [|discriminate]. apply date_new_wf.
+Qed.
+Lemma d_first_of_wf u p wd r : wf_date p -> d_first_of u p wd = Ok r -> wf_date r.
+Proof.
+  intros W. unfold d_first_of, d_first_of_quarter, d_first_of_year, date_set_ymd, date_set_month.
+  destruct (u =? U_MONTH); [apply d_first_of_month_wf; exact W|].
+  destruct (u =? U_QUARTER).
+  { destruct (date_new _ _ _) as [q|e] eqn:E; cbn [bind]; [|discriminate]. apply d_first_of_month_wf. exact (date_new_wf _ _ _ _ E). }
+  destruct (u =? U_YEAR); [|discriminate].
+  destruct (date_new _ _ _) as [q|e] eqn:E; cbn [bind]; [|discriminate]. apply d_first_of_month_wf. exact (date_new_wf _ _ _ _ E).
+Qed.
+
+(* ------------------------------------------------------------------ _nth_of_month / _nth_of_quarter / _nth_of_year (Self | None) *)
+Definition gres_opt (r : result (option pdate)) : result (option gdate) :=
+  match r with Ok (Some p) => Ok (Some (gd_of p)) | Ok None => Ok None | Raise e => Raise e end.
+
+Lemma d_iter_next_wf w : forall k q r, wf_date q -> d_iter_next k w q = Ok r -> wf_date r.
+Proof.
+  induction k as [|k IH]; intros q r W; cbn [d_iter_next]; [intros H; injection H as <-; exact W|].
+  destruct (d_next q (Some w)) as [q'|e] eqn:E; cbn [bind]; [|discriminate]. apply IH. exact (d_next_wf _ _ _ W E).
+Qed.
+
+Ltac for_loop_eq :=
+  let k := fresh "k" in let IH := fresh "IH" in
+  induction k as [|k IH]; intros i q W; [reflexivity|]; cbn -[wglue_Date_next d_next];
+  apply sim_bind; [apply wglue_Date_next_eq; exact W|]; intros q' Hq; apply IH; exact (d_next_wf _ _ _ W Hq).
+Lemma for1_month_eq w : forall k i q, wf_date q -> wglue_Date_nth_of_month_for1 k i w (gd_of q) = gres (d_iter_next k w q).
+Proof. for_loop_eq. Qed.
+Lemma for1_quarter_eq w : forall k i q, wf_date q -> wglue_Date_nth_of_quarter_for1 k i w (gd_of q) = gres (d_iter_next k w q).
+Proof. for_loop_eq. Qed.
+Lemma for1_year_eq w : forall k i q, wf_date q -> wglue_Date_nth_of_year_for1 k i w (gd_of q) = gres (d_iter_next k w q).
+Proof. for_loop_eq. Qed.
+
+Lemma d_first_of_month_unit p wd : d_first_of U_MONTH p wd = d_first_of_month p wd. Proof. reflexivity. Qed.
+Lemma d_first_of_quarter_unit p wd : d_first_of U_QUARTER p wd = d_first_of_quarter p wd. Proof. reflexivity. Qed.
+Lemma d_first_of_year_unit p wd : d_first_of U_YEAR p wd = d_first_of_year p wd. Proof. reflexivity. Qed.
+
+Lemma gres_some r : match gres r with Raise e => Raise e | Ok m => Ok (Some m) end = gres_opt (bind r (fun x => Ok (Some x))).
+Proof. destruct r; reflexivity. Qed.
+
+Theorem wglue_Date_nth_of_month_eq p nth w : wf_date p -> wglue_Date_nth_of_month (gd_of p) nth w = gres_opt (d_nth_of_month p nth w).
+Proof.
+  intros W. unfold wglue_Date_nth_of_month, d_nth_of_month. rewrite ?(d_first_of_month_unit p None), ?(d_first_of_month_unit p (Some w)). rewrite !wglue_Date_first_of_month_eq by exact W.
+  destruct (nth =? 1); [apply gres_some|].
+  destruct (d_first_of_month p None) as [dt0|e] eqn:E0; cbn [gres bind]; cbv beta iota zeta; [|reflexivity].
+  pose proof (d_first_of_month_wf _ _ _ W E0) as W0. rewrite gd_of_dow, Z.sub_0_r. unfold nth_iters. rewrite for1_month_eq by exact W0.
+  destruct (d_iter_next _ w dt0) as [dt|e] eqn:E1; cbn [gres bind]; cbv beta iota zeta; [|reflexivity].
+  pose proof (d_iter_next_wf _ _ _ _ W0 E1) as W1. rewrite gd_of_same_ym by assumption. destruct (same_year_month dt dt0); [|reflexivity].
+  rewrite (proj2 (proj2 (gd_of_fields dt W1))). rewrite set_day_eq by exact W. apply gres_some.
+Qed.
+
+Theorem wglue_Date_nth_of_quarter_eq p nth w : wf_date p -> wglue_Date_nth_of_quarter (gd_of p) nth w = gres_opt (d_nth_of_quarter p nth w).
+Proof.
+  intros W. destruct (gd_of_fields p W) as (A & B & C).
+  unfold wglue_Date_nth_of_quarter, d_nth_of_quarter. rewrite ?(d_first_of_quarter_unit p None), ?(d_first_of_quarter_unit p (Some w)). rewrite wglue_Date_first_of_quarter_eq by exact W.
+  destruct (nth =? 1); [apply gres_some|]. rewrite A, gd_of_quarter by exact W. rewrite replace_ymd_eq by exact W.
+  destruct (date_set_ymd p (d_year p) (py_Date_quarter p * 3) 1) as [dtq|e] eqn:Eq; cbn [gres bind]; cbv beta iota zeta; [|reflexivity].
+  pose proof (date_new_wf _ _ _ _ Eq) as Wq. destruct (gd_of_fields dtq Wq) as (Aq & Bq & Cq). rewrite Aq, Bq.
+  rewrite (d_first_of_quarter_unit dtq None). rewrite wglue_Date_first_of_quarter_eq by exact Wq.
+  destruct (d_first_of_quarter dtq None) as [dt0|e] eqn:E0; cbn [gres bind]; cbv beta iota zeta; [|reflexivity].
+  assert (W0 : wf_date dt0) by (apply (d_first_of_wf U_QUARTER dtq None); [exact Wq|exact E0]).
+  rewrite gd_of_dow, Z.sub_0_r. unfold nth_iters. rewrite for1_quarter_eq by exact W0.
+  destruct (d_iter_next _ w dt0) as [dt|e] eqn:E1; cbn [gres bind]; cbv beta iota zeta; [|reflexivity].
+  pose proof (d_iter_next_wf _ _ _ _ W0 E1) as W1. destruct (gd_of_fields dt W1) as (A1 & B1 & C1). rewrite A1, B1, C1.
+  destruct ((d_month dtq <? d_month dt) || negb (d_year dtq =? d_year dt)); [reflexivity|].
+  rewrite set_ymd_eq by exact W. apply gres_some.
+Qed.
+
+Theorem wglue_Date_nth_of_year_eq p nth w : wf_date p -> wglue_Date_nth_of_year (gd_of p) nth w = gres_opt (d_nth_of_year p nth w).
+Proof.
+  intros W. destruct (gd_of_fields p W) as (A & B & C).
+  unfold wglue_Date_nth_of_year, d_nth_of_year. rewrite ?(d_first_of_year_unit p None), ?(d_first_of_year_unit p (Some w)). rewrite !wglue_Date_first_of_year_eq by exact W.
+  destruct (nth =? 1); [apply gres_some|].
+  destruct (d_first_of_year p None) as [dt0|e] eqn:E0; cbn [gres bind]; cbv beta iota zeta; [|reflexivity].
+  assert (W0 : wf_date dt0) by (apply (d_first_of_wf U_YEAR p None); [exact W|exact E0]).
+  destruct (gd_of_fields dt0 W0) as (A0 & B0 & C0). rewrite A0.
+  rewrite gd_of_dow, Z.sub_0_r. unfold nth_iters. rewrite for1_year_eq by exact W0.
+  destruct (d_iter_next _ w dt0) as [dt|e] eqn:E1; cbn [gres bind]; cbv beta iota zeta; [|reflexivity].
+  pose proof (d_iter_next_wf _ _ _ _ W0 E1) as W1. destruct (gd_of_fields dt W1) as (A1 & B1 & C1). rewrite A, A1, B1, C1.
+  destruct (negb (d_year dt0 =? d_year dt)); [reflexivity|].
+  rewrite set_ymd_eq by exact W. apply gres_some.
+Qed.
+
+(* nth_of:
+     if unit not in ["month", "quarter", "year"]: raise ValueError
+     try: dt = getattr(self, f"_nth_of_{unit}")(nth, day_of_week)
+     except OverflowError: dt = None
+     if not dt: raise PendulumException
+     return dt
+   written by hand over the translated helpers (the translator has no try/except and no getattr) *)
+Definition wglue_Date_nth_of (u : Z) (self : gdate) (nth wd : Z) : result gdate :=
+  let r := if u =? U_MONTH then overflow_to_none (wglue_Date_nth_of_month self nth wd)
+           else if u =? U_QUARTER then overflow_to_none (wglue_Date_nth_of_quarter self nth wd)
+           else if u =? U_YEAR then overflow_to_none (wglue_Date_nth_of_year self nth wd)
+           else Raise E_ValueError in
+  match r with Raise e => Raise e | Ok (Some d) => Ok d | Ok None => Raise E_PendulumException end.
+
+Lemma overflow_gres_opt r : overflow_to_none (gres_opt r) = gres_opt (overflow_to_none r).
+Proof. destruct r as [[q|]|[]]; reflexivity. Qed.
+
+Theorem wglue_Date_nth_of_eq u p nth w : wf_date p -> wglue_Date_nth_of u (gd_of p) nth w = gres (d_nth_of u p nth w).
+Proof.
+  intros W. unfold wglue_Date_nth_of, d_nth_of.
+  rewrite wglue_Date_nth_of_month_eq, wglue_Date_nth_of_quarter_eq, wglue_Date_nth_of_year_eq by exact W. rewrite !overflow_gres_opt.
+  cbv zeta. destruct (u =? U_MONTH); [destruct (overflow_to_none _) as [[q|]|e]; reflexivity|].
+  destruct (u =? U_QUARTER); [destruct (overflow_to_none _) as [[q|]|e]; reflexivity|].
+  destruct (u =? U_YEAR); [destruct (overflow_to_none _) as [[q|]|e]; reflexivity|reflexivity].
+Qed.
